@@ -298,6 +298,7 @@ type endpoint struct { // one receiving endpoint
 	rocAt     int         // packets of flow 0 written when this endpoint joined
 	appAt     uint32      // RTCP APP packets written when this endpoint's PLAY / RECORD had completed
 	undecided atomic.Bool // its session ended by a wall-clock watchdog on a stalled machine (inconclusive)
+	undrained atomic.Bool // still working through a backlog when the drain gave up (no tail demanded)
 	playing   atomic.Bool
 	closing   atomic.Bool
 	stalled   atomic.Int32 // pacing gave up waiting for this endpoint that many times
@@ -667,36 +668,56 @@ func (sr *scenRun) pace(s *sender, lag int) {
 	}
 }
 
-// drain writes sentinel packets until every endpoint saw one (or maxN were written).
-func (sr *scenRun) drain(s *sender, r *rand.Rand, write func(*rtp.Packet) error, eps []*endpoint, maxN int) []*endpoint {
+// drain writes sentinel packets until every endpoint saw one. The verdict is not a wall-clock
+// bound: sentinels are written in rounds of perRound, and an endpoint that has not seen one is
+// given another round as long as any delivery reached it during the round (a slow consumer working
+// through its backlog on a loaded machine), up to 12 rounds. It returns the endpoints that received
+// nothing at all during a whole round (stuck) and the ones still progressing at the end (slow).
+func (sr *scenRun) drain(s *sender, r *rand.Rand, write func(*rtp.Packet) error, eps []*endpoint, perRound int) (stuck, slow []*endpoint) {
 	first := s.ctr
 	defer s.f.MarkSentinelFrom(first)
-	for i := 0; i < maxN; i++ {
-		p := s.build(r, 60)
-		idx := s.f.Forward(p)
-		err := write(p)
-		s.f.Done(idx, err)
-		if err != nil && !strings.Contains(err.Error(), "queue is full") {
-			sr.sendErr.CompareAndSwap(nil, err.Error())
-		}
-		time.Sleep(time.Millisecond)
-		all := true
+	pending := func() []*endpoint {
+		var out []*endpoint
 		for _, e := range eps {
 			if v, ok := e.rd.LastSeen(s.f.Media, s.f.PT); !ok || int(v) < first {
-				all = false
+				out = append(out, e)
 			}
 		}
-		if all {
-			return nil
+		return out
+	}
+	for round := 0; round < 12; round++ {
+		before := map[*endpoint]int{}
+		for _, e := range eps {
+			before[e] = e.rd.Delivered()
+		}
+		for i := 0; i < perRound; i++ {
+			p := s.build(r, 60)
+			idx := s.f.Forward(p)
+			err := write(p)
+			s.f.Done(idx, err)
+			if err != nil && !strings.Contains(err.Error(), "queue is full") {
+				sr.sendErr.CompareAndSwap(nil, err.Error())
+			}
+			time.Sleep(time.Millisecond)
+			if len(pending()) == 0 {
+				return nil, nil
+			}
+		}
+		if round > 0 {
+			run.Count("drain-rounds-beyond-the-first", 1)
+		}
+		moving := false
+		pend := pending()
+		for _, e := range pend {
+			if e.rd.Delivered() > before[e] {
+				moving = true
+			}
+		}
+		if !moving {
+			return pend, nil
 		}
 	}
-	var stuck []*endpoint
-	for _, e := range eps {
-		if v, ok := e.rd.LastSeen(s.f.Media, s.f.PT); !ok || int(v) < first {
-			stuck = append(stuck, e)
-		}
-	}
-	return stuck
+	return nil, pending()
 }
 
 func descWithBack(formats []int, back bool) *description.Session {
@@ -1115,7 +1136,12 @@ func runScenario(sc scenario) {
 	}
 	for i, s := range sr.senders {
 		dr := rand.New(rand.NewSource(sc.Seed*17 + int64(i)))
-		for _, e := range sr.drain(s, dr, write(s), drainEps, 1500) {
+		stuckEps, slowEps := sr.drain(s, dr, write(s), drainEps, 1500)
+		for _, e := range slowEps {
+			run.Inconclusive("drain-still-progressing-after-12-rounds")
+			e.undrained.Store(true)
+		}
+		for _, e := range stuckEps {
 			d1, _ := e.decFirst.Load().(string)
 			if se, _ := sr.sendErr.Load().(string); se != "" {
 				// the sending side ended (writes fail): not a verdict about the receiver
@@ -1131,13 +1157,17 @@ func runScenario(sc scenario) {
 				key = "tamper/" + sc.Transport + "/" + sr.coldTag() + side + "-receiver-blocked-after-altered-packet"
 			}
 			sr.fail(key,
-				fmt.Sprintf("endpoint %s (joined at packet %d) received none of 1500 sentinel packets of media %d format %d after the load; decode errors so far: %d (first: %s)",
+				fmt.Sprintf("endpoint %s (joined at packet %d) received nothing at all during a whole round of 1500 sentinel packets of media %d format %d after the load; decode errors so far: %d (first: %s)",
 					e.name, e.rocAt, s.f.Media, s.f.PT, e.decErr.Load()+sr.srvDec.Load(), d1),
 				map[string]any{"endpoint": e.name, "decode_error_kinds_client": e.decodeErrorKinds(), "decode_error_kinds_server": sr.srvEP.decodeErrorKinds()})
 		}
 	}
 	for _, e := range drainEps {
-		e.rd.WindowClose("drain")
+		if e.undrained.Load() {
+			e.rd.WindowClose("close") // not drained: what is still on its way is not demanded
+		} else {
+			e.rd.WindowClose("drain")
+		}
 	}
 	time.Sleep(30 * time.Millisecond)
 
